@@ -34,6 +34,7 @@ type Env struct {
 
 var envDFS *sched.DFS // set by runDriver while a small scenario is being enumerated
 var lockTrace bool    // -locks 1: record which goroutines are simultaneously inside critical sections (C11)
+var freeYield = 4     // free-running mode: 1-in-N chance of a perturbation at a hook point (0: none - profile "stress")
 var gateTrace bool    // -gates 1: record every scheduling decision (goroutine, hook point) as a "step" line (L2 binding)
 
 func NewEnv(mode string, seed int64, strategy string, replay []string, st *Stats, confirm bool, pollPrefixes ...string) *Env {
@@ -59,7 +60,7 @@ func NewEnv(mode string, seed int64, strategy string, replay []string, st *Stats
 		}
 		ctl.Begin(e.Opts)
 	} else {
-		ctl.StartFree(seed, 4)
+		ctl.StartFree(seed, freeYield)
 	}
 	return e
 }
@@ -184,6 +185,9 @@ func runDriver(sr scenarioRunner, args map[string]string) {
 	t0 := time.Now()
 	mode := args["mode"]
 	profile := args["profile"]
+	if profile == "stress" || profile == "herd" {
+		freeYield = 0 // maximal real contention: no perturbation sleeps at the hook points
+	}
 	seed := atoi64(args["seed"], 1)
 	n := int(atoi64(args["n"], 100))
 	out := args["out"]
